@@ -93,10 +93,15 @@ class DeepONet(Model):
         if iteration_num != function_set.current_iteration_num:
             function_set.current_iteration_num = iteration_num
             function_set.sample_params(device=device)
+            self._branch_evaluated_for = None
+        # the features stored in the branch belong to one function set: evaluate again if another
+        # function set (or, for a shared function set, another network) was served in between
+        if getattr(self, "_branch_evaluated_for", None) is not function_set:
             discrete_fn_batch = self.branch._discretize_function_set(
                 function_set, device=device
             )
             self.branch(discrete_fn_batch)
+            self._branch_evaluated_for = function_set
 
     def fix_branch_input(self, function, device="cpu"):
         """Fixes the branch net for a given function. this function will then be used
@@ -110,4 +115,5 @@ class DeepONet(Model):
         device : str, optional
             The device where the data lays. Default is 'cpu'.
         """
+        self._branch_evaluated_for = None
         self.branch.fix_input(function, device=device)
